@@ -15,6 +15,10 @@ theorem constants_spec :
     Facts.C32.defaultPartSize = 128 * 1024 ∧ Facts.C32.paddingPartSize = 1024 ∧
     Facts.C32.maximumPartSize = 512 * 1024 := by decide
 
+/-- The per-part retry loops of `smallLoop` and `uploadBigFilePart` have no attempt counter or limit
+(control skeleton regenerated from the source). -/
+theorem retry_loops_unbounded : Facts.C32.retryLoopsUnbounded = true := by decide
+
 /-- Bytes in part order equal the source (any source, any part size ≥ 1). -/
 theorem chunks_concat (ps : Nat) (hps : 0 < ps) (src : Bytes) : (chunks ps src).flatten = src :=
   chunksF_flatten ps hps _ src (Nat.le_refl _)
@@ -98,6 +102,26 @@ theorem upload_exact (md5 : Bytes → Bytes) (c : Cfg) (script : Nat → List Re
 always ends with the part saved, after `1 +` (number of refusals before the first `true`) requests. -/
 theorem retries_transparent (l : List Resp) (h : Resp.err ∉ l) : (attempts l).2 = true ∧ 0 < (attempts l).1 :=
   ⟨attempts_saved l h, attempts_pos l⟩
+
+/-- Retry transparency is unbounded: after ANY number `n` of consecutive refusals (`false` or
+FLOOD_WAIT) of one part the part is still saved, with exactly `n + 1` identical requests. -/
+theorem retries_unbounded (faults : List Resp) (hf : ∀ r ∈ faults, r = .no ∨ r = .flood)
+    (rest : List Resp) (hrest : rest = [] ∨ rest.head? = some .ok) :
+    attempts (faults ++ rest) = (faults.length + 1, true) := by
+  induction faults with
+  | nil =>
+    rcases hrest with h | h
+    · subst h; rfl
+    · cases rest with
+      | nil => rfl
+      | cons x t => simp only [List.head?_cons, Option.some.injEq] at h; subst h; rfl
+  | cons r faults ih =>
+    have := ih (fun x hx => hf x (List.mem_cons_of_mem _ hx))
+    rcases hf r (List.mem_cons_self) with h | h <;> subst h <;>
+      simp only [List.cons_append, attempts, this, List.length_cons]
+
+/-- Non-vacuity: 40 refusals in a row, then `true`. -/
+example : attempts (List.replicate 40 .no ++ [.ok]) = (41, true) := by decide
 
 /-- Big-file parts carry the final part count once it is known: with a known size every part carries
 it (it equals the number of parts actually sent); with an unknown size the part read together with the
